@@ -45,8 +45,9 @@ fn lef_s2i(case: &Value) -> Value {
             }
             Ok(Ok(l)) => l,
         };
-        if expect_err { probs.push(json!({"stage":"read","outcome":"accepted-but-error-required","var":var})); continue; }
-        if let Some(d) = json_diff(&want, &lib_json(&lib), "") {
+        // (a text that should have been refused but was read is still in the image of the reader: C05 goes on with it)
+        if expect_err { probs.push(json!({"stage":"read","outcome":"accepted-but-error-required","var":var})); }
+        else if let Some(d) = json_diff(&want, &lib_json(&lib), "") {
             probs.push(json!({"stage":"read","outcome":"misread","path":d.0,"want":d.1,"got":d.2,"var":var}));
             // C05 quantifies over the image of the reader: continue with what was read
         }
@@ -149,7 +150,10 @@ fn parse_outcome(text: &str) -> Value {
 }
 /// one faulted token list: {toks}
 fn lef_fault(case: &Value) -> Value {
-    let text = render(geta(case, "toks"), (geti(case, "v") % 3) as u32, (geti(case, "v") % 15) as u32, 0);   // separators 0..5, long multi-byte comment lines 6..14
+    let v = geti(case, "v");
+    // separators 0..5, long multi-byte comment lines 6..14; every third group of 15 with long multi-byte names (tails of 18..33 letters)
+    let idpad = if (v / 15) % 3 == 2 { Some(18 + ((v / 45) % 16) as usize) } else { None };
+    let text = crate::lefabs::render_opts(geta(case, "toks"), (v % 3) as u32, (v % 15) as u32, 0, idpad);
     let mut o = parse_outcome(&text);
     o["id"] = id(case);
     if o["outcome"] == "panic" { o["text"] = trunc(&json!(text)); }
